@@ -105,18 +105,39 @@ def listener_part(ctx, extra_scenarios=None, only_extra=False):
     else:
         des = design(ctx)
         scs = [dict(w) for w in WITNESSES] + generate(ctx, 120 if ctx.quick else 2000)
-    vl = ctx.go_build("vlisten")
-    sfile, tfile, vfile = ctx.path("gen", "listener_scen.json"), ctx.path("traces", "listener.ndjson"), ctx.path("gen", "listener_verdict.json")
-    json.dump(scs, open(sfile, "w"))
-    if os.path.exists(vfile):
-        os.remove(vfile)
-    ctx.run([vl, "run", sfile, tfile], timeout=3000)
-    r = ctx.tlc("TraceListener", "TraceListener.cfg", name="trace_listener", workers=1, heap="4g", timeout=1800, env={"VERIF_TRACE": tfile, "VERIF_OUT": vfile})
-    if not os.path.exists(vfile):
-        sys.stderr.write(r.tail(40))
-        raise Inconclusive("TraceListener produced no verdict")
-    lines = [json.loads(x) for x in open(tfile)]
-    v = json.load(open(vfile))
+    def run_and_judge(part, tag):
+        vl = ctx.go_build("vlisten")
+        sfile, tfile, vfile = ctx.path("gen", "listener_scen%s.json" % tag), ctx.path("traces", "listener%s.ndjson" % tag), ctx.path("gen", "listener_verdict%s.json" % tag)
+        json.dump(part, open(sfile, "w"))
+        if os.path.exists(vfile):
+            os.remove(vfile)
+        ctx.run([vl, "run", sfile, tfile], timeout=3000)
+        r = ctx.tlc("TraceListener", "TraceListener.cfg", name="trace_listener" + tag, workers=1, heap="4g", timeout=1800, env={"VERIF_TRACE": tfile, "VERIF_OUT": vfile})
+        if not os.path.exists(vfile):
+            sys.stderr.write(r.tail(40))
+            raise Inconclusive("TraceListener produced no verdict")
+        ls = [json.loads(x) for x in open(tfile)]
+        bad = json.load(open(vfile))["bad"]
+        for b in bad:
+            b["_lines"] = ls
+        return ls, bad, r
+
+    lines, bad, r = run_and_judge(scs, "")
+    # "connection still open" / "no arrival" are observations with a 40 ms window: schedules whose record the model could not
+    # follow are run once more (rules raised by either run are kept)
+    again = {b["scen"] for b in bad if any(c.startswith("conf.") or c.startswith("harness.") for c in b["complaints"])}
+    if again and len(again) <= max(5, len(scs) // 10):
+        ctx.log("listener: %d schedules not followed by the model, run once more: %s" % (len(again), sorted(again)[:5]))
+        l2, b2, _ = run_and_judge([x for x in scs if x["name"] in again], "_again")
+        keep = [b for b in bad if b["scen"] not in again]
+        for b in bad:
+            if b["scen"] in again:
+                rules = [c for c in b["complaints"] if not (c.startswith("conf.") or c.startswith("harness."))]
+                if rules:
+                    keep.append(dict(b, complaints=rules))
+        bad = keep + b2
+        lines += l2
+    v = dict(bad=bad)
     by_name = {s["name"]: s for s in scs}
     steps = sum(1 for e in lines if e["ev"] == "step")
     conf, trouble, rules_seen = [], [], {}
@@ -125,12 +146,12 @@ def listener_part(ctx, extra_scenarios=None, only_extra=False):
             if c.startswith("conf."):
                 conf.append((b["scen"], b["line"], c))
             elif c.startswith("harness."):
-                trouble.append((b["scen"], lines[b["line"] - 1].get("note")))
+                trouble.append((b["scen"], b["_lines"][b["line"] - 1].get("note")))
             else:
                 rules_seen[c] = rules_seen.get(c, 0) + 1
                 if len(ctx.violations) < 10:
                     ctx.violation("%s in listener schedule %s at line %s (%s %s)" % (c, b["scen"], b["line"] - b["start"], b["who"], b["what"]),
-                                  dict(kind="listener", rule=c, scenario=by_name.get(b["scen"], {}), recorded=lines[b["start"] - 1:b["line"]][-8:]))
+                                  dict(kind="listener", rule=c, scenario=by_name.get(b["scen"], {}), recorded=b["_lines"][b["start"] - 1:b["line"]][-8:]))
     ctx.log("listener: %d schedules (%d directed), %d steps on a real TCP listener, %d not followed by the model; rules raised: %s" %
             (len(scs), len(WITNESSES), steps, len(conf), rules_seen))
     if not ctx.violations:
